@@ -1,6 +1,6 @@
 (* ROUTER identity maps, written after core/src/socket/patterns/router.rs (struct RouterMap).
-   Two hash maps:  identity_to_peer_info : Blob -> PeerInfo{uri, strategy}   ("forward")
-                   read_pipe_to_identity : usize -> Blob                     ("reverse")
+   Two hash maps:  identity_to_peer_info : Blob -> PeerInfo{uri, strategy, pipe_read_id}   ("forward")
+                   read_pipe_to_identity : usize -> Blob                                   ("reverse")
    modelled as association lists with unique keys (insert = remove old binding + cons).
    Executable definitions only; proofs are in Proofs/RouterMapProofs.v. *)
 From RZ Require Import Base.Prelude.
@@ -15,7 +15,10 @@ Inductive strat := SDefault | SReq | SDealer | SRouter.
 (* peer_socket_type: Option<&str> as seen by update_peer_identity *)
 Inductive ptype := TReq | TDealer | TRouter | TOther.
 
-Definition info : Type := uri * strat.
+(* PeerInfo { uri, strategy, pipe_read_id }: the last component is the pipe that OWNS the entry
+   (the pipe whose add_peer / update_peer_identity wrote it) *)
+Definition info : Type := uri * strat * pipe.
+Definition owner (x : info) : pipe := snd x.
 
 Fixpoint ident_eqb (a b : ident) : bool :=
   match a, b with
@@ -42,6 +45,17 @@ Section Alist.
   Definition aset (k : K) (v : V) (l : list (K * V)) : list (K * V) := (k, v) :: aremove k l.
 End Alist.
 
+(* `forward.get(id).map_or(false, |i| i.pipe_read_id == p)`: the forward entry of id exists and is owned by p *)
+Definition owned_by (p : pipe) (id : ident) (f : list (ident * info)) : bool :=
+  match aget ident_eqb id f with
+  | Some x => owner x =? p
+  | None => false
+  end.
+(* `if forward.get(id).map_or(false, |i| i.pipe_read_id == p) { forward.remove(id); }`: the guarded
+   removal all three pipe-driven operations use - an entry that meanwhile belongs to another pipe stays *)
+Definition remove_if_owner (p : pipe) (id : ident) (f : list (ident * info)) : list (ident * info) :=
+  if owned_by p id f then aremove ident_eqb id f else f.
+
 Record rmap := { fwd : list (ident * info); rev : list (pipe * ident) }.
 Definition rm_empty : rmap := {| fwd := []; rev := [] |}.
 
@@ -49,15 +63,16 @@ Definition fget (i : ident) (m : rmap) : option info := aget ident_eqb i (fwd m)
 Definition rget (p : pipe) (m : rmap) : option ident := aget N.eqb p (rev m).
 
 (* RouterMap::add_peer(identity, pipe_read_id, endpoint_uri):
-   forward insert first (Default strategy); then reverse insert; if the pipe previously had a
-   DIFFERENT identity, that identity's forward entry is removed. *)
+   forward insert first (Default strategy, owner = this pipe; last wins); then reverse insert; if the
+   pipe previously had a DIFFERENT identity, that identity's forward entry is removed - but only if
+   this pipe still owns it. *)
 Definition add_peer (id : ident) (p : pipe) (u : uri) (m : rmap) : rmap :=
-  let fwd1 := aset ident_eqb id (u, SDefault) (fwd m) in
+  let fwd1 := aset ident_eqb id (u, SDefault, p) (fwd m) in
   let old := aget N.eqb p (rev m) in
   let rev1 := aset N.eqb p id (rev m) in
   match old with
   | Some oid => if ident_eqb oid id then {| fwd := fwd1; rev := rev1 |}
-                else {| fwd := aremove ident_eqb oid fwd1; rev := rev1 |}
+                else {| fwd := remove_if_owner p oid fwd1; rev := rev1 |}
   | None => {| fwd := fwd1; rev := rev1 |}
   end.
 
@@ -70,19 +85,20 @@ Definition strat_of_type (t : option ptype) : strat :=
   end.
 
 (* RouterMap::update_peer_identity(pipe_read_id, new_identity, endpoint_uri, peer_socket_type):
-   remove the forward entry of the pipe's old identity if different; reverse insert; forward insert. *)
+   remove the forward entry of the pipe's old identity if different AND still owned by this pipe;
+   reverse insert; forward insert (owner = this pipe). *)
 Definition update_peer_identity (p : pipe) (id : ident) (u : uri) (t : option ptype) (m : rmap) : rmap :=
   let fwd1 := match aget N.eqb p (rev m) with
-              | Some oid => if ident_eqb oid id then fwd m else aremove ident_eqb oid (fwd m)
+              | Some oid => if ident_eqb oid id then fwd m else remove_if_owner p oid (fwd m)
               | None => fwd m
               end in
-  {| fwd := aset ident_eqb id (u, strat_of_type t) fwd1; rev := aset N.eqb p id (rev m) |}.
+  {| fwd := aset ident_eqb id (u, strat_of_type t, p) fwd1; rev := aset N.eqb p id (rev m) |}.
 
-(* RouterMap::remove_peer_by_read_pipe: remove the reverse entry, then UNCONDITIONALLY remove the
-   forward entry of that identity (whoever it currently points to). *)
+(* RouterMap::remove_peer_by_read_pipe: remove the reverse entry, then remove the forward entry of
+   that identity ONLY IF it is owned by this pipe (an entry a later pipe took over stays). *)
 Definition remove_peer_by_read_pipe (p : pipe) (m : rmap) : rmap :=
   match aget N.eqb p (rev m) with
-  | Some id => {| fwd := aremove ident_eqb id (fwd m); rev := aremove N.eqb p (rev m) |}
+  | Some id => {| fwd := remove_if_owner p id (fwd m); rev := aremove N.eqb p (rev m) |}
   | None => m
   end.
 
@@ -90,11 +106,11 @@ Definition remove_peer_by_read_pipe (p : pipe) (m : rmap) : rmap :=
 Definition candidates (id : ident) (m : rmap) : list pipe :=
   map fst (filter (fun pv => ident_eqb (snd pv) id) (rev m)).
 
-(* RouterMap::remove_peer_by_identity: if the forward entry exists it is removed, then the FIRST
-   reverse entry (in HashMap iteration order, which is unspecified) whose value equals the identity
-   is removed.  The iteration order is an oracle input: `hint` names the pipe the iteration meets
-   first; if it is not a candidate the first candidate of the association list is taken.  Every
-   candidate can be selected by some hint, and only candidates are ever selected. *)
+(* RouterMap::remove_peer_by_identity: if the forward entry exists it is removed (whoever owns it),
+   then the FIRST reverse entry (in HashMap iteration order, which is unspecified) whose value
+   equals the identity is removed.  The iteration order is an oracle input: `hint` names the pipe
+   the iteration meets first; if it is not a candidate the first candidate of the association list
+   is taken.  Every candidate can be selected by some hint, and only candidates are ever selected. *)
 Definition pick (hint : pipe) (cands : list pipe) : option pipe :=
   if existsb (N.eqb hint) cands then Some hint else hd_error cands.
 Definition remove_peer_by_identity (hint : pipe) (id : ident) (m : rmap) : rmap :=
